@@ -8,8 +8,27 @@ package main
 
 import (
 	"fmt"
+	"os"
+	"strconv"
 	"strings"
 )
+
+// `gvh worker c14large <individuals> <families> <places> <sources> <pointer prefix>` prints a large
+// file again (the replay of a failing large-file run names this command instead of 50 000 lines).
+func init() {
+	workers["c14large"] = func(args []string) int {
+		if len(args) != 5 {
+			fmt.Fprintln(os.Stderr, "usage: c14large <individuals> <families> <places> <sources> <prefix>")
+			return 2
+		}
+		var n [4]int
+		for i := range n {
+			n[i], _ = strconv.Atoi(args[i])
+		}
+		fmt.Print(c14Large(n[0], n[1], n[2], n[3], args[4]))
+		return 0
+	}
+}
 
 var c14HeaderNames = []string{"bare", "full+place-format", "full", "place-with-value", "odd-children", "place-format-only", "none"}
 
